@@ -36,7 +36,9 @@ class Decode(Part):
     budget = {"quick": (8, 1500), "thorough": (16, 12000)}
 
     def strategy(self, tier):
-        seg = st.builds(lambda t, s: {"t": t, "s": s}, C03.seg_text(), st.one_of(st.none(), GS.style_spec(), GS.style_spec(), st.sampled_from(GS.PALETTE)))
+        # also characters that str.splitlines() treats as line ends but terminals and rich do not (NEL, FS, LS, PS)
+        text = st.one_of(C03.seg_text(), C03.seg_text(), C03.seg_text(), st.lists(st.sampled_from(["ab", "c", "\x85", "\x1c", "\u2028", "\u2029", "\n", " "]), min_size=1, max_size=5).map("".join))
+        seg = st.builds(lambda t, s: {"t": t, "s": s}, text, st.one_of(st.none(), GS.style_spec(), GS.style_spec(), st.sampled_from(GS.PALETTE)))
         return st.builds(lambda segs, route: {"segs": segs, "route": route}, st.lists(seg, min_size=1, max_size=8), st.sampled_from(["raw", "text"]))
 
     def check(self, spec, ctx):
